@@ -21,7 +21,9 @@ for n, cs in ((3, 2), (2, 1)):
        defines=[f"GR_NCOMP={n}", f"GR_CS={cs}", "GR_XDIM=3", "GR_YDIM=2"], unwind=4, **GR)
 
 prop("C09",
-     residual="everything but the interlace permutation kernel: region/stride addressing and fill in GRwriteimage/GRreadimage, "
-              "palettes, metadata persistence (GRIupdatemeta/GRIupdateRIG/GRend), compressed and chunked images, number types > 2 bytes, "
-              "images larger than the stated bounds",
+     residual="decided bounded: the interlace permutation kernel; region/stride addressing and first-write fill of GRreadimage/GRwriteimage for images "
+              "<= 4x4, pixel sizes 1..3 bytes, over a ghost H layer (c09_gr_ext.py); decided per call (proved): GRwritelut/GRgetlutinfo bookkeeping.  "
+              "NOT decided: write-side interlace other than pixel, metadata persistence (GRIupdatemeta/GRIupdateRIG/GRend), compressed and chunked "
+              "images, number types > 2 bytes per component, images larger than the stated bounds, requests reaching outside the image (no range "
+              "check in mfgr.c: outside C09's quantifier)",
      assumptions=["A-GR-NTSIZE: DFKNTsize is stubbed (component size in {1,2} chosen by the harness)"])
